@@ -102,8 +102,8 @@ Theorem C16_addresses_stable_along_histories : forall L cap budget fixed aid jun
   wf_plist L = true -> 0 <= cap -> Forall (fun c => 0 <= c) fixed ->
   let v0 := fst (mkvec L cap budget fixed aid junk bid tbid) in
   let s0 := {| s_cap := cap; s_elems := [] |} in
-  shist_valid L (fixed_counts L fixed) s0 h -> nt_hist_ok L s0 h ->
-  shist_valid L (fixed_counts L fixed) s0 (h ++ ext) -> nt_hist_ok L s0 (h ++ ext) ->
+  shist_valid L (fixed_counts L fixed) s0 h -> nt_hist_okx L s0 h ->
+  shist_valid L (fixed_counts L fixed) s0 (h ++ ext) -> nt_hist_okx L s0 (h ++ ext) ->
   let l := s_elems (srun s0 h) in
   let l' := s_elems (srun s0 (h ++ ext)) in
   firstn n l = firstn n l' -> (k < n)%nat -> (k < length l)%nat -> (k < length l')%nat ->
